@@ -164,6 +164,16 @@ func c10History(ctx *Ctx, h int) {
 		}
 		ctx.Class(fmt.Sprintf("%s|%s|earlier=%d|%s", kind, img.Point, earlier, gen))
 		if gen == "new" || gen == "prev" {
+			// the recovered directory must keep working: further snapshots on it must restore too
+			if kind == "process_death" {
+				if what := snapRedurable(rd.dir, restoreAt, int64(h*131+len(img.Point))); what != "" {
+					ctx.Violate(Violation{Kind: "redurable", Lane: "snapshot-redurable",
+						What: fmt.Sprintf("after recovering from a crash at %s with %d earlier snapshot(s): %s", img.Point, earlier, what),
+						Case: map[string]interface{}{"script": script, "failpoint": img.Point, "earlier_snapshots": earlier}, Key: "snap|redurable|" + img.Point})
+				}
+				ctx.Eval(1)
+				ctx.Class(fmt.Sprintf("redurable|%s|earlier=%d", img.Point, earlier))
+			}
 			return
 		}
 		what := ""
@@ -302,4 +312,42 @@ func restoreSnapDump(imgDir string, clk *VClock, mutate func(dir string) error) 
 	rd.lastSave = lastSave(in)
 	in.Close()
 	return d, rd, nil
+}
+
+// snapRedurable: on a directory recovered from a crash image, start with snapshot restore, and three times:
+// write, move the clock, snapshot, restart and compare. Returns "" or what went wrong.
+func snapRedurable(dir string, base *VClock, seed int64) string {
+	r := rand.New(rand.NewSource(seed))
+	clk := NewVClock()
+	clk.Set(base.NowNs())
+	for round := 0; round < 3; round++ {
+		run, err := newPRunner(dir, "no", false, true, clk)
+		if err != nil {
+			return "start-up failed: " + err.Error()
+		}
+		populate(run, r, 2+r.Intn(6), false)
+		clk.Advance(int64(1000+r.Intn(100000)) * 1e6)
+		res, rerr := run.exec(pOp{Caller: "emb", Argv: []string{"@SNAP"}})
+		want := run.canon()
+		ls := lastSave(run.in)
+		run.close()
+		if rerr != nil {
+			return "snapshot crashed: " + rerr.Error()
+		}
+		if res != "ok" && !strings.Contains(res, "nothing new") {
+			return fmt.Sprintf("round %d: a snapshot on the recovered directory failed: %s", round, res)
+		}
+		if res != "ok" {
+			continue
+		}
+		d, rd, err := restoreSnapDump(dir, clk, nil)
+		os.RemoveAll(rd.dir)
+		if err != nil {
+			return "restart after a later snapshot failed: " + err.Error()
+		}
+		if !canonEq(want, d) || rd.lastSave != ls {
+			return fmt.Sprintf("round %d: a later successful snapshot (LASTSAVE %s) does not restore (LASTSAVE %s): %s", round, ls, rd.lastSave, model.DiffCanon(want, d))
+		}
+	}
+	return ""
 }
